@@ -257,6 +257,37 @@ static var new_spawner(vh_rng* r) {
   return p;
 }
 
+/* ---------- a root that other roots or thread-local storage refer to ----------
+** A root Box owns a managed probe that nothing else refers to; the Box itself is parked in the thread's storage, and a
+** second root Box refers to the first.  Collections find the roots through those references before they come to their
+** own entries -- the probes they own are alive all the same, until del_root releases each exactly once. */
+static void __attribute__((noinline)) make_linked_roots(vh_rng* r, var* boxes, int64_t* ids) {
+  for (int i = 0; i < 2; i++) { var t = new_probe(r, HK_MANAGED, &ids[i]); boxes[i] = new_root(Box, t); t = NULL; }
+}
+static void linked_roots_case(vh_rng* r, const char* who) {
+  var boxes[2]; int64_t ids[2];
+  make_linked_roots(r, boxes, ids);
+  var holder = new_root(Tuple, boxes[0], boxes[1]);            /* a root that refers to both */
+  set(current(Thread), $S("c06-linked-root"), boxes[1]);         /* and thread-local storage refers to the second */
+  uintptr_t masked[3] = { (uintptr_t)boxes[0] ^ HIDE_MASK, (uintptr_t)boxes[1] ^ HIDE_MASK, (uintptr_t)holder ^ HIDE_MASK };
+  boxes[0] = boxes[1] = holder = NULL;
+  ring_scrub();
+  vh_op("%s two root Boxes referenced by a root Tuple and by thread-local storage; collect twice", who);
+  collect_now();
+  for (int i = 0; i < 40; i++) { int64_t id; var g = new_probe(r, HK_MANAGED, &id); g = NULL; }
+  collect_now();
+  for (int i = 0; i < 2; i++) {
+    vh_eval();
+    if (mo_state[ids[i]] != MO_CONSTRUCTED) { vh_violation("C06:root:object-owned-by-a-root-finalised-while-the-root-is-alive", "the probe owned by root Box %d (the Box is referenced by another root%s) is in state %d after two collections", i, i ? " and by thread-local storage" : "", mo_state[ids[i]]); }
+  }
+  rem(current(Thread), $S("c06-linked-root"));
+  del_root((var)(masked[2] ^ HIDE_MASK));
+  for (int i = 0; i < 2; i++) {
+    if (mo_state[ids[i]] == MO_CONSTRUCTED) { del_root((var)(masked[i] ^ HIDE_MASK)); expect_released(ids[i], "del_root-of-a-root-Box"); }
+  }
+  vh_count("roots_referenced_by_other_roots_and_thread_local_storage");
+}
+
 /* ---------- the mutator ---------- */
 
 static void run_ops(vh_rng* r, struct world* w, int nops, const char* who) {
@@ -367,7 +398,7 @@ static void run_ops(vh_rng* r, struct world* w, int nops, const char* who) {
     } else if (roll < 62 && !w->stopped) {
       family_case(r, who);
     } else if (roll < 63 && !w->stopped) {
-      ring_case(r, who);
+      if (vh_chance(r, 50)) { ring_case(r, who); } else { linked_roots_case(r, who); }
     } else if (roll < 72) {
       if (h->p) { delete_held(h, w->stopped ? "-inside-stop-window" : ""); if (w->stopped) { vh_count("deletions_inside_stop_window"); } }
     } else if (roll < 80) {
